@@ -444,6 +444,95 @@ def params_roundtrip():
         if got2 is not new2:
             bad.append(dict(what=f'KoopmanPipeline.set_params(split__<{where} step name>=estimator) does not reach the step',
                             estimator='KoopmanPipeline'))
+    # replacing a step by name must not reach back into objects the estimator does not own: the list the caller passed to
+    # the constructor, the parameter dict handed out by get_params(deep=False) earlier, a sibling built from the same list;
+    # and set_params(**saved) must restore the estimator (a fit afterwards equals the fit of a fresh copy of the original)
+    for cls_name in ('KoopmanPipeline', 'SplitPipeline'):
+        n += 1
+        lf_a, lf_b = pykoop.PolynomialLiftingFn(order=2), pykoop.DelayLiftingFn(1, 1)
+        steps = [('pl', lf_a), ('dl', lf_b)]
+        if cls_name == 'KoopmanPipeline':
+            mk_ = lambda st: pykoop.KoopmanPipeline(lifting_functions=st, regressor=pykoop.Edmd())  # noqa
+            attr = 'lifting_functions'
+        else:
+            mk_ = lambda st: pykoop.SplitPipeline(lifting_functions_state=st, lifting_functions_input=None)  # noqa
+            attr = 'lifting_functions_state'
+        est = mk_(steps)
+        sibling = mk_(steps)
+        saved = est.get_params(deep=False)
+        reference = sklearn.base.clone(est)
+        est.set_params(pl=pykoop.PolynomialLiftingFn(order=4))
+        if steps[0][1] is not lf_a or len(steps) != 2:
+            bad.append(dict(what=f'{cls_name}.set_params(<step name>=estimator) modified the list the caller passed to the constructor',
+                            estimator=cls_name))
+            continue
+        if saved[attr][0][1] is not lf_a:
+            bad.append(dict(what=f'{cls_name}.set_params(<step name>=estimator) modified the parameters handed out earlier by '
+                                 'get_params(deep=False)', estimator=cls_name))
+            continue
+        if getattr(sibling, attr)[0][1] is not lf_a:
+            bad.append(dict(what=f'{cls_name}.set_params(<step name>=estimator) on one estimator changed another estimator built '
+                                 'from the same step list', estimator=cls_name))
+            continue
+        est.set_params(**saved)
+        try:
+            if cls_name == 'KoopmanPipeline':
+                est.fit(D, n_inputs=1, episode_feature=True); reference.fit(D, n_inputs=1, episode_feature=True)
+            else:
+                est.fit(D, n_inputs=1, episode_feature=True); reference.fit(D, n_inputs=1, episode_feature=True)
+            dd = diff(fitted_state(est), fitted_state(reference), 0)
+        except Exception as e:  # noqa
+            dd = f'{type(e).__name__}: {e}'
+        if dd:
+            bad.append(dict(what=f'{cls_name}: set_params(<step name>=other) followed by set_params(**saved shallow parameters) does not '
+                                 'restore the estimator: its fit differs from the fit of a clone taken before', estimator=cls_name,
+                            difference=str(dd)[:600]))
+    return n, bad
+
+
+def config_history_case():
+    """history that goes through the configuration: after a finished `with config_context(...)` block (normal exit or an
+    exception) the configuration is what it was, and a fit that must reject its input (fractional episode labels) still does"""
+    bad = []
+    n = 0
+    rng = np.random.default_rng(5)
+    D = data(rng, nu=1)
+    Dbad = np.array(D, copy=True)
+    Dbad[:, 0] = Dbad[:, 0] + 0.5
+    before = dict(pykoop.get_config())
+
+    def rejects():
+        try:
+            pykoop.KoopmanPipeline(lifting_functions=[('p', pykoop.PolynomialLiftingFn(order=2))], regressor=pykoop.Edmd()).fit(
+                Dbad, n_inputs=1, episode_feature=True)
+            return False
+        except ValueError:
+            return True
+    base = rejects()
+    for how in ('normal exit', 'exception', 'nested', 'get_config result modified'):
+        n += 1
+        try:
+            if how == 'get_config result modified':
+                c = pykoop.get_config()
+                c['skip_validation'] = not c['skip_validation']
+            elif how == 'nested':
+                with pykoop.config_context(skip_validation=True):
+                    with pykoop.config_context(skip_validation=False):
+                        pykoop.KoopmanPipeline(regressor=pykoop.Edmd()).fit(D, n_inputs=1, episode_feature=True)
+            else:
+                with pykoop.config_context(skip_validation=True):
+                    pykoop.KoopmanPipeline(regressor=pykoop.Edmd()).fit(D, n_inputs=1, episode_feature=True)
+                    if how == 'exception':
+                        raise KeyError('x')
+        except KeyError:
+            pass
+        after = dict(pykoop.get_config())
+        now = rejects()
+        if after != before or now != base:
+            bad.append(dict(what=f'after a finished config_context block / a modified get_config() result ({how}) the configuration or '
+                                 'the behaviour of a later fit on invalid input differs from before (the fit depends on that history)',
+                            config_before=before, config_after=after, rejects_invalid_before=base, rejects_invalid_after=now))
+            pykoop.set_config(**before)
     return n, bad
 
 
@@ -613,6 +702,7 @@ def run(res, tier):
                 bad.append(r)
     dist['refit_with_other_split'] = n_sc
     n1, b1 = params_roundtrip(); ev += n1; bad += b1
+    n1, b1 = config_history_case(); ev += n1; bad += b1
     n2, b2 = shared_step_case(rng); ev += n2; bad += b2
     n2b, b2b = shared_subobject_case(rng); ev += n2b; bad += b2b
     try:
